@@ -123,7 +123,12 @@ def query_plan(seqs: list[int], rng, full: bool) -> list[tuple[int | None, int |
             plan += [(k, a) for a in sorted({k - 1 if k else 0, k, nxt, pts[-1]})] + [(k, None)]
     have = {a for k, a in plan if k is None}
     plan = [(None, a) for a in sorted({a for k, a in plan if a is not None and a not in have})] + plan
-    return plan
+    # queries that share a snapshot are issued against ONE long-lived SnapshotStore / EventReplayer without re-saving the
+    # snapshot in between, latest as_of first: a rebuild must not leak state into the next (earlier) as_of query
+    snap_part = [(k, a) for k, a in plan if k is not None]
+    plain_part = [(k, a) for k, a in plan if k is None]
+    snap_part.sort(key=lambda ka: (ka[0], 0 if ka[1] is None else 1, -(ka[1] or 0)))
+    return plain_part + snap_part
 
 
 def impl_queries(event_store, wf_id: str, plan, explicit: list[tuple[int, dict, int | None]] = ()):
@@ -136,13 +141,16 @@ def impl_queries(event_store, wf_id: str, plan, explicit: list[tuple[int, dict, 
     with_snap = EventReplayer(event_store, snapshot_store=snaps)
     out = []
     asof_cache: dict[Any, dict] = {}
+    last_k = object()
     for k, a in plan:
         if k is None:
             st = plain.rebuild_workflow_state(wf_id, as_of_sequence=a)
             asof_cache[a] = st
         else:
-            base = plain.rebuild_workflow_state(wf_id, as_of_sequence=k)
-            snaps.create_workflow_snapshot(base, wf_id, version=1, sequence=k)
+            if k != last_k:
+                base = plain.rebuild_workflow_state(wf_id, as_of_sequence=k)
+                snaps.create_workflow_snapshot(base, wf_id, version=1, sequence=k)
+                last_k = k
             st = with_snap.rebuild_workflow_state(wf_id, as_of_sequence=a)
         out.append(st)
     ex_out = []
